@@ -9,11 +9,12 @@ import numpy as np
 import bct
 from bctmc import smallscope as ss
 from bctmc import oracles as orc
+from bctmc import named
 from bctmc.runner import guarded
 from bctmc.tally import Tally
 
 PROPERTY = 'C10'
-RULE = ('all 0/1 digraphs n<=4 and graphs n<=5 for the weighted/binary pairs; all symmetric matrices over {0,1/8,1} on 4 '
+RULE = ('the structured 7-10 node family of bctmc/named.py (0/1) and all 0/1 digraphs n<=4 and graphs n<=5 for the weighted/binary pairs; all symmetric matrices over {0,1/8,1} on 4 '
         'nodes (and the binary graphs) for the directed/undirected pairs; weighted matrices over {0,1/8,1} (sym n=4, dir n=3) and signed {-1,0,1} (sym n=5, weights that cancel) (dir '
         'n=3) vs their binarisation for the weight-ignoring routines (quick also: all 6-node graphs for the distance/betweenness/efficiency pairs; thorough: und n=6 all pairs, sym weighted n=5, dir weighted '
         'n=4); non-trivial = input with unequal degrees and a triangle or an unreachable pair')
@@ -36,6 +37,9 @@ FAMILIES = {
 
 def plan(ctx):
     units = []
+    for tag in ('bin_und', 'bin_dir'):
+        for (a, b) in ss.ranges(len(named.family(tag)), 16):
+            units.append(('named:' + tag, a, b))
     for name, (kind, n, alpha, tier) in FAMILIES.items():
         if tier == 't' and not ctx.thorough:
             continue
@@ -168,8 +172,19 @@ def check_case(t, name, X, case):
 
 def work(unit):
     name, a, b = unit
-    kind, n, alpha, _ = FAMILIES[name]
     t = Tally(PROPERTY)
+    if name.startswith('named:'):
+        fam = named.family(name[6:])
+        directed = name.endswith('dir')
+        for idx in range(a, b):
+            label, X = fam[idx]
+            case = {'family': name, 'index': idx, 'graph': label, 'X': X}
+            binary_pairs(t, X, case, directed)
+            if not directed:
+                symmetric_pairs(t, X, case, True)
+            t.c['nontrivial'] += 1
+        return t
+    kind, n, alpha, _ = FAMILIES[name]
     for idx in range(a, b):
         X = ss.dir_graph(n, alpha, idx) if kind == 'd' else ss.und_graph(n, alpha, idx)
         case = {'family': name, 'index': idx, 'X': X}
@@ -183,5 +198,11 @@ def work(unit):
 def replay(rec):
     t = Tally(PROPERTY)
     c = rec['case']
+    if c['family'].startswith('named:'):
+        X = np.array(c['X'], dtype=float)
+        binary_pairs(t, X, c, c['family'].endswith('dir'))
+        if not c['family'].endswith('dir'):
+            symmetric_pairs(t, X, c, True)
+        return t
     check_case(t, c['family'], np.array(c['X'], dtype=float), c)
     return t
